@@ -130,7 +130,7 @@ Definition G_ex : sgraph :=
   [ty "a" "C"; st "a" "p" (iri "b"); st "a" "n" (plain_lit "x y"); st "a" "m" (int_lit "5");
    ty "b" "D"; st "b" "p" (iri "c"); ty "c" "C"; st "c" "n" (plain_lit "abc"); st "c" "m" (int_lit "-12")].
 
-Ltac nodup_compute := repeat (constructor; [vm_compute; intuition discriminate|]); constructor.
+Ltac nodup_compute := apply nodup_b_ok; vm_compute; reflexivity.
 
 Example C15_dom_inhabited :
   dom (cfg0 true true (-1) (-1)) G_ex /\ mode_ok (cfg0 true true (-1) (-1)) G_ex (MClasses [ex "C"; ex "D"]) /\
@@ -147,7 +147,8 @@ Qed.
 (** ** what is false today (known findings; each with a pinned reproducer
     replayed against the real code by harness/vp/props/c15.py) *)
 
-Ltac not_in_compute := let H := fresh in intro H; vm_compute in H; intuition discriminate.
+Ltac in_compute := apply in_triple_b; vm_compute; reflexivity.
+Ltac not_in_compute := apply notin_triple_b; vm_compute; reflexivity.
 
 (** C15-F1 (result reader).  A language-tagged literal is delivered with its
     value doubled and quoted ([hola"hola"@es]); a typed literal whose
@@ -175,7 +176,8 @@ Proof.
   exists {| ts := Node KIri (ex "a"); tp := ex "l"; to := OL (Str "hola""hola""@es") c_LANG_STRING_TYPE |},
          {| ts := Node KIri (ex "a"); tp := ex "d"; to := OL (Str "2020-01-01") c_STRING_TYPE |},
          {| ts := Node KIri (ex "a"); tp := ex "s"; to := OL (Str "42") c_INTEGER_TYPE |}.
-  repeat split; try not_in_compute; vm_compute; tauto.
+  split; [in_compute|]. split; [not_in_compute|]. split; [in_compute|]. split; [not_in_compute|].
+  split; [in_compute|]. split; [not_in_compute|]. repeat split; reflexivity.
 Qed.
 
 (** C15-F2 (inverse paths, inside the domain).  A statement linking two
@@ -196,9 +198,7 @@ Proof.
   split; [apply id_oracles_ok|]. split; [split; [vm_compute; reflexivity | unfold local_graph; nodup_compute]|].
   split; [split; [vm_compute; reflexivity | exists (ty "a" "C"); split; [left|]; reflexivity]|].
   split.
-  - intro H. vm_compute in H.
-    repeat match goal with H : NoDup (_ :: _) |- _ => inversion H; clear H; subst end.
-    match goal with H : ~ In _ _ |- _ => apply H; cbn; tauto end.
+  - apply nodup_b_false. vm_compute. reflexivity.
   - intro H. vm_compute in H. discriminate.
 Qed.
 
@@ -284,5 +284,5 @@ Proof.
          [ty "a" "C"; {| ss := NI (ex "a"); sp := ex "p"; so := SN (NB (Str "b0")) |};
           {| ss := NB (Str "b1"); sp := ex "q"; so := iri "a" |}],
          id_oracles, (MClasses [ex "C"]).
-  split; [apply id_oracles_ok|]. split; [vm_compute; reflexivity|]. split; vm_compute; tauto.
+  split; [apply id_oracles_ok|]. split; [vm_compute; reflexivity|]. split; [in_compute | vm_compute; reflexivity].
 Qed.
